@@ -7,6 +7,8 @@ use wac_parser::Document;
 mod fs;
 #[cfg(feature = "registry")]
 mod registry;
+#[cfg(feature = "verif-hooks")]
+pub mod verif_seam;
 mod visitor;
 
 pub use fs::*;
